@@ -119,14 +119,28 @@ class Ctx:
 
     # ---------------- translator ----------------
     def translate(self):
+        """Regenerates Gen/*.v.  A generator that cannot parse its source fragment is a broken tie ONLY for the
+        properties whose Coq cone contains that generated file: the errors are kept in self.translate_errors and
+        attributed in coq_hygiene (when the cone is known) or, failing that, in finish()."""
         rc, out, _ = sh([sys.executable, os.path.join(VERIF, "tools", "translate.py")])
+        self.translate_errors = []
         for l in out.splitlines():
             if l.startswith("TRANSLATE-ERROR"):
-                self.broken.append({"kind": "translator", "what": l[len("TRANSLATE-ERROR "):]})
+                msg = l[len("TRANSLATE-ERROR "):]
+                gen = msg.split(":", 1)[0].strip()
+                self.translate_errors.append((gen, msg))
                 self.log(l)
             elif l.strip():
                 self.log(l)
         return rc == 0
+
+    def attribute_translate_errors(self, cone):
+        for gen, msg in getattr(self, "translate_errors", []):
+            if cone is None or ("theories/Gen/" + gen) in cone:
+                self.broken.append({"kind": "translator", "what": msg})
+            else:
+                self.notes.append(f"translator: {msg} (generated file not in this property's cone: not a broken tie here)")
+        self.translate_errors = []
 
     # ---------------- Coq ----------------
     def coq_build(self, targets, timeout=1500):
@@ -181,6 +195,7 @@ class Ctx:
     def coq_hygiene(self, targets, build_res, allow_axioms=()):
         """Forbidden-token grep, obligation count, Print Assumptions allowlist for the cone."""
         cone = self.coq_cone(targets)
+        self.attribute_translate_errors(cone)
         obligations, discharged = 0, 0
         names = []
         for v in cone:
@@ -275,22 +290,45 @@ class Ctx:
         return os.path.join(TARGET, "release" if release else "debug", name)
 
     def ocaml_build(self):
-        # every model module named in extraction/parts must be compiled and up to date (a regenerated
-        # Gen file invalidates cones other than this property's)
-        mods = []
+        """Extracts the models and links the driver.  Every model module named in extraction/parts is rebuilt
+        first (a regenerated Gen file invalidates cones other than this property's).  A part whose modules do not
+        build on this tree (its source fragment changed shape, a proof of another slice broke) is LEFT OUT together
+        with the drv_*.ml files that need it, so that one slice cannot take the other properties' checks down; the
+        check that needs the missing handler then reports a broken correspondence on its own."""
         pdir = os.path.join(COQ, "extraction", "parts")
+        parts = {}
         for fn in sorted(os.listdir(pdir)):
+            mods = []
             for l in open(os.path.join(pdir, fn)):
                 if l.startswith("Require:"):
                     mods += l[len("Require:"):].split()
-        vos = ["theories/" + m.replace(".", "/") + ".vo" for m in mods]
+            parts[fn] = ["theories/" + m.replace(".", "/") + ".vo" for m in mods]
+        vos = sorted({v for vs in parts.values() for v in vs})
         with BuildLock():
             gen_coqproject()
-            if not os.path.exists(os.path.join(COQ, "Makefile")):
+            mk = os.path.join(COQ, "Makefile")
+            proj = os.path.join(COQ, "_CoqProject")
+            if not os.path.exists(mk) or os.path.getmtime(mk) < os.path.getmtime(proj):
                 sh("coq_makefile -f _CoqProject -o Makefile", cwd=COQ)
             rc0, out0, _ = sh(["make", "-j16", "-k"] + vos, cwd=COQ, timeout=1500)
-            rc, out, dt = sh([os.path.join(COQ, "extraction", "build.sh"), OCAML], timeout=900)
+            usable = []
+            for fn, vs in parts.items():
+                ok = True
+                if rc0 != 0:
+                    rcq, _o, _ = sh(["make", "-q"] + vs, cwd=COQ, timeout=300)
+                    ok = rcq == 0
+                if ok:
+                    usable.append(fn)
+                else:
+                    self.log(f"extraction: part {fn} left out (its modules do not build on this tree)")
+                    self.notes.append(f"extraction part {fn} left out: its modules do not build on this tree")
+            rc, out, dt = sh([os.path.join(COQ, "extraction", "build.sh"), OCAML], timeout=900,
+                             env={"PARTS": " ".join(usable)})
         self.log(f"extraction + ocaml driver -> rc={rc} in {dt:.1f}s")
+        for l in out.splitlines():
+            if l.startswith("SKIPPED-DRIVER"):
+                self.log(l)
+                self.notes.append(l)
         if rc != 0:
             self.broken.append({"kind": "build", "what": "extraction / driver build failed", "detail": out[-1500:]})
         return rc == 0
@@ -301,6 +339,7 @@ class Ctx:
         self.violations.append({"what": what, "replay": replay_obj, "key": key})
 
     def finish(self, level="proof"):
+        self.attribute_translate_errors(None)
         rc = 0
         lines = []
         unknown = []
